@@ -751,6 +751,24 @@ def seq_slice(s, lo, hi):
     nz = z3.IntVal(n) if isinstance(n, int) else n
     l = norm(lo, z3.IntVal(0))
     h = norm(hi, nz)
+    st = cur()
+    if s.parts and st is not None:
+        # a slice that falls exactly on part boundaries of a concatenation is the concatenation of those parts
+        # (keeps the term the sequence was built from, so uninterpreted folds over it stay congruent)
+        bounds = [z3.IntVal(0)]
+        for p_ in s.parts:
+            pn = p_.n if not isinstance(p_.n, int) else z3.IntVal(p_.n)
+            bounds.append(z3.simplify(bounds[-1] + pn))
+        li = [i for i, b_ in enumerate(bounds) if st.quick(l == b_)]
+        hi_ = [i for i, b_ in enumerate(bounds) if st.quick(h == b_)]
+        if li and hi_ and li[0] <= hi_[-1]:
+            sel = s.parts[li[0]:hi_[-1]]
+            if not sel:
+                return Seq(s.kind, None, items=[], elem=s.elem)
+            acc = sel[0].as_kind(s.kind)
+            for p_ in sel[1:]:
+                acc = seq_concat(acc, p_.as_kind(s.kind))
+            return acc
     ln = z3.simplify(cite(h > l, h - l, z3.IntVal(0)))
     l = z3.simplify(l)
     if z3.is_int_value(ln) and z3.is_int_value(l):
